@@ -269,8 +269,12 @@ def check(prog, run):
             # C
             ccall, carg = apps[Cn][0].at, apps[Cn][0].elt
             cx = astq.expr_at(fi, ccall, carg)
+            # (a copy of the window is the window: .copy() / np.array(..) / np.ascontiguousarray(..) keep every value)
+            while (isinstance(cx, ast.Call) and isinstance(cx.func, ast.Attribute) and cx.func.attr == "copy" and not cx.args) or \
+                    (isinstance(cx, ast.Call) and astq.callee_name(prog, fi, cx) in ("numpy.array", "numpy.ascontiguousarray", "numpy.copy", "numpy.asarray") and len(cx.args) == 1):
+                cx = cx.func.value if isinstance(cx.func, ast.Attribute) and cx.func.attr == "copy" and not cx.args else cx.args[0]
             cs = row_slice(se, cx)
-            okc = cs is not None and astq.dump(cs[0]) == astq.dump(up[0]) and cs[1] == P.c(0) and cs[2] is not None and cs[2] == w_down
+            okc = (astq.dump(cs[0]) == astq.dump(up[0]) and cs[1] == P.c(0) and cs[2] is not None and cs[2] == w_down) if cs is not None else None
             ob("R-shift", "C = first w rows of the same matrix", okc, f"C = `{astq.src(cx, 60)}`", astq.src(cx, 60), ccall)
             # truncation index
             tr = [astq.dump(t) for t in rec["trunc"]]
